@@ -9,7 +9,7 @@ Local Open Scope N_scope.
 Definition pre_take_m (x : xpc) : Prop :=
   match x with XAlive | XPub | XDg _ _ | XDw _ | XL0 => True | _ => False end.
 Definition pre_take_g (x : xpc) : Prop := match x with XAlive | XPub => True | _ => False end.
-Definition pend_m (x : xpc) (k : key) : Prop := match x with XL todo => In k todo | _ => False end.
+Definition pend_m (x : xpc) (k : key) : Prop := match x with XL todo _ => In k todo | _ => False end.
 Definition pend_g (x : xpc) (k : key) : Prop := match x with XDg gm _ => In k gm | _ => False end.
 Definition pend_w (x : xpc) (s : N) : Prop :=
   match x with XDg _ wm => In s wm | XDw wm => In s wm | _ => False end.
@@ -17,7 +17,7 @@ Definition pend_w (x : xpc) (s : N) : Prop :=
 (* the entry a thread holds, and the actors it has accepted but not yet made members *)
 Definition holds (p : pc) (k : key) : Prop :=
   match p with
-  | JL k' _ _ _ _ _ => k' = k | JCommit k' _ _ _ => k' = k | LL k' _ => k' = k
+  | JL k' _ _ _ _ _ => k' = k | JCommit k' _ _ _ => k' = k | LL k' _ _ => k' = k
   | _ => False
   end.
 Definition accs (p : pc) : list N :=
@@ -180,7 +180,7 @@ Lemma cinv_JCommit c t k kept acc stopped :
   let mem' := fold_left (fun m a => nadd a m) joined (g_mem gs) in
   let g1 := pg_map g (kupd (p_map g) k (Some (mkG mem' (g_lis gs)))) in
   let g2 := if null joined then g1 else pg_index g1 (index_add (p_index g1) (fst k) (snd k)) in
-  cinv (mkC g2 (kupd (c_held c) k None) (upd_nth (c_thr c) t (JS k joined stopped)) (c_x c)).
+  cinv (mkC g2 (kupd (c_held c) k None) (upd_nth (c_thr c) t (JS k joined (g_lis gs) stopped)) (c_x c)).
 Proof.
   intros I N g joined gs mem' g1 g2.
   assert (HM : forall k', mem_of g2 k' = if keqb k k' then mem' else mem_of g k').
@@ -208,12 +208,12 @@ Proof.
 Qed.
 
 (* leave: one actor removed inside the held entry *)
-Lemma cinv_LL_cons c t k a todo :
-  cinv c -> nth_error (c_thr c) t = Some (LL k (a :: todo)) ->
+Lemma cinv_LL_cons c t k acts a todo :
+  cinv c -> nth_error (c_thr c) t = Some (LL k acts (a :: todo)) ->
   let g := c_pg c in let gs := gs_of g k in
   cinv (mkC (pg_rels (pg_map g (kupd (p_map g) k (Some (mkG (nrem a (g_mem gs)) (g_lis gs)))))
                      (nupd (p_rels g) a (option_map (rel_rem_mem k) (p_rels g a))))
-            (c_held c) (upd_nth (c_thr c) t (LL k todo)) (c_x c)).
+            (c_held c) (upd_nth (c_thr c) t (LL k acts todo)) (c_x c)).
 Proof.
   intros I N g gs.
   set (g' := pg_rels (pg_map g (kupd (p_map g) k (Some (mkG (nrem a (g_mem gs)) (g_lis gs)))))
@@ -496,6 +496,12 @@ Proof.
   - (* DS0 *) apply (frame_thr c t _ _ _ _ I N); auto; simpl; tauto.
   - (* DS1 *) pose proof (cinv_DS1 c t s a had I N) as X. simpl in X.
     destruct (p_world (c_pg c) s); exact X.
+  - apply (frame_thr c t _ _ _ _ I N); auto; simpl; tauto.
+  - apply (frame_thr c t _ _ _ _ I N); auto; simpl; tauto.
+  - apply (frame_thr c t _ _ _ _ I N); auto; simpl; tauto.
+  - apply (frame_thr c t _ _ _ _ I N); auto; simpl; tauto.
+  - apply (frame_thr c t _ _ _ _ I N); auto; simpl; tauto.
+  - apply (frame_thr c t _ _ _ _ I N); auto; simpl; tauto.
   - (* Done *) apply (frame_thr c t _ _ _ _ I N); auto; simpl; tauto.
 Qed.
 
@@ -622,7 +628,7 @@ Qed.
 
 Lemma cinv_XL0_some c a r : cinv c -> c_x c a = XL0 -> p_rels (c_pg c) a = Some r ->
   cinv (mkC (pg_rels (c_pg c) (nupd (p_rels (c_pg c)) a (Some (mkR [] (r_gmon r) (r_wmon r)))))
-            (c_held c) (c_thr c) (nupd (c_x c) a (XL (r_mem r)))).
+            (c_held c) (c_thr c) (nupd (c_x c) a (XL (r_mem r) []))).
 Proof.
   intros I XA R. set (g := c_pg c).
   assert (Ra : rel_of g a = r) by (unfold rel_of, g; rewrite R; auto).
@@ -654,8 +660,8 @@ Proof.
     (kcase k k'; auto; rewrite ogs_lclean; reflexivity).
 Qed.
 
-Lemma cinv_XL_cons c a k todo : cinv c -> c_x c a = XL (k :: todo) -> free c k = true ->
-  cinv (mkC (leave_one (c_pg c) a k) (c_held c) (c_thr c) (nupd (c_x c) a (XL todo))).
+Lemma cinv_XL_cons c a k todo evs evs' : cinv c -> c_x c a = XL (k :: todo) evs -> free c k = true ->
+  cinv (mkC (leave_one (c_pg c) a k) (c_held c) (c_thr c) (nupd (c_x c) a (XL todo evs'))).
 Proof.
   intros I XA F. set (g := c_pg c). apply free_true in F.
   assert (HR : forall b, rel_of (leave_one g a k) b = rel_of g b).
@@ -717,7 +723,7 @@ Proof.
       * intros k H. pose proof (k_rgmon _ I _ _ H) as X. rewrite XA in X. exact X.
       * intros s H. pose proof (k_rwmon _ I _ _ H) as X. rewrite XA in X. exact X.
     + destruct (free c k) eqn:F; simpl.
-      * apply cinv_XL_cons; auto.
+      * eapply cinv_XL_cons; eauto.
       * apply xframe; auto; try rewrite XA; simpl; try tauto; try discriminate.
         -- intros k' H. pose proof (k_rmem _ I _ _ H) as X. rewrite XA in X. exact X.
         -- intros k' H. pose proof (k_rgmon _ I _ _ H) as X. rewrite XA in X. exact X.
@@ -727,10 +733,25 @@ Proof.
     + intros k H. pose proof (k_rmem _ I _ _ H) as X. rewrite XA in X. exact X.
     + intros k H. pose proof (k_rgmon _ I _ _ H) as X. rewrite XA in X. exact X.
     + intros s H. pose proof (k_rwmon _ I _ _ H) as X. rewrite XA in X. exact X.
+  - destruct evs as [|[k lis] rest]; simpl; apply xframe; auto; try rewrite XA; simpl; try tauto; try discriminate.
+    + intros k9 H. pose proof (k_rmem _ I _ _ H) as X. rewrite XA in X. exact X.
+    + intros k9 H. pose proof (k_rgmon _ I _ _ H) as X. rewrite XA in X. exact X.
+    + intros s9 H. pose proof (k_rwmon _ I _ _ H) as X. rewrite XA in X. exact X.
+    + intros k9 H. pose proof (k_rmem _ I _ _ H) as X. rewrite XA in X. exact X.
+    + intros k9 H. pose proof (k_rgmon _ I _ _ H) as X. rewrite XA in X. exact X.
+    + intros s9 H. pose proof (k_rwmon _ I _ _ H) as X. rewrite XA in X. exact X.
   - apply xframe; auto; try rewrite XA; simpl; try tauto; try discriminate.
-    + intros k H. pose proof (k_rmem _ I _ _ H) as X. rewrite XA in X. exact X.
-    + intros k H. pose proof (k_rgmon _ I _ _ H) as X. rewrite XA in X. exact X.
-    + intros s H. pose proof (k_rwmon _ I _ _ H) as X. rewrite XA in X. exact X.
+    + intros k9 H. pose proof (k_rmem _ I _ _ H) as X. rewrite XA in X. exact X.
+    + intros k9 H. pose proof (k_rgmon _ I _ _ H) as X. rewrite XA in X. exact X.
+    + intros s9 H. pose proof (k_rwmon _ I _ _ H) as X. rewrite XA in X. exact X.
+  - apply xframe; auto; try rewrite XA; simpl; try tauto; try discriminate.
+    + intros k9 H. pose proof (k_rmem _ I _ _ H) as X. rewrite XA in X. exact X.
+    + intros k9 H. pose proof (k_rgmon _ I _ _ H) as X. rewrite XA in X. exact X.
+    + intros s9 H. pose proof (k_rwmon _ I _ _ H) as X. rewrite XA in X. exact X.
+  - apply xframe; auto; try rewrite XA; simpl; try tauto; try discriminate.
+    + intros k9 H. pose proof (k_rmem _ I _ _ H) as X. rewrite XA in X. exact X.
+    + intros k9 H. pose proof (k_rgmon _ I _ _ H) as X. rewrite XA in X. exact X.
+    + intros s9 H. pose proof (k_rwmon _ I _ _ H) as X. rewrite XA in X. exact X.
 Qed.
 
 Lemma tstep_thr t p c : c_thr (snd (tstep t p c)) = c_thr c /\ c_x (snd (tstep t p c)) = c_x c.
@@ -748,6 +769,7 @@ Proof.
   destruct x; simpl; auto;
     repeat match goal with
            | |- context [match ?l with [] => _ | _ :: _ => _ end] => destruct l; simpl; auto
+           | |- context [let (_, _) := ?p in _] => destruct p; simpl; auto
            | |- context [if ?b then _ else _] => destruct b; simpl; auto
            | |- context [match ?o with Some _ => _ | None => _ end] => destruct o; simpl; auto
            end.
